@@ -16,6 +16,7 @@ CONSTANTS
   MinTimeout = 3
   RetrySlack = 1
   SchedSlack = 0
+  RepeatLag = 0
   GapBound <- GapOne
 INVARIANTS NoClause DeadlineInv
 CHECK_DEADLOCK FALSE
